@@ -22,8 +22,8 @@ from harness.lib import sx as SX
 ID = "C10"
 COQ_DIR = "C10"
 RUN_MOD = "C10.Run"
-MODEL_TARGETS = ["C10/Run.vo"]
-PROOF_TARGETS = ["C10/SgrLemmas.vo", "C10/Lemmas.vo", "C10/LemmasInv.vo", "C10/LemmasRun.vo", "C10/LemmasPure.vo", "C10/LemmasTop.vo", "C10/LemmasSub.vo", "C10/LemmasWit.vo", "C10/LemmasLayout.vo", "C10/LemmasHandle.vo"]
+MODEL_TARGETS = ["C10/Titles.vo", "C10/Run.vo"]
+PROOF_TARGETS = ["C10/SgrLemmas.vo", "C10/Lemmas.vo", "C10/LemmasInv.vo", "C10/LemmasRun.vo", "C10/LemmasPure.vo", "C10/LemmasTop.vo", "C10/LemmasSub.vo", "C10/LemmasWit.vo", "C10/LemmasLayout.vo", "C10/LemmasHandle.vo", "C10/LemmasTitles.vo"]
 PROPS = ["C10/Props.v"]
 ALLOWED_AXIOMS = []
 IMPL_TIMEOUT = 60.0
@@ -529,7 +529,7 @@ def gen_consts(repo):
             f"(* hdoc.HCommand / LLImpl: the palette is looked up when it is used (property _c: true) / captured by __init__ (false) *)\n"
             f"Definition help_palette_at_call : bool := {SX.cbool(ex['help_at_call'])}.\n"
             + "".join(f"Definition {n} : Z := {_cls_index(ex, *mq)}.\n" for n, mq in names.items())
-            + "".join(f"Definition acc_{a} : Z := {aid[a]}.\n" for a in ("text", "name", "number", "keyword")))
+            + "".join(f"Definition acc_{a} : Z := {aid[a]}.\n" for a in ("text", "name", "number", "keyword", "col_title", "border")))
     return {"C10_Consts": text}
 
 
@@ -1328,6 +1328,219 @@ def _help_case(rng):
     return {"fts": [], "objs": objs, "ops": ops, "hlp": 1}
 
 
+# ---------------------------------------------------------------------- objects that share what the caller gave them
+# "Output has no memory": the memory may also sit in an object the renderings share -- the RecordField objects of a record
+# structure (shared, un-cloned, by every table built with fmt_obj= / by the format objects set_fmt() makes; kept by
+# remove_columns()), a RecordField list the caller built and gave to several tables, the BoundMethodNotes objects a class
+# returns from its _get_hdoc_method_notes() hook.  An in-place += / extend / sort on such an object during a rendering shows
+# in every later rendering that uses it.  Two families: tables whose column titles have DIFFERENT numbers of lines, showing
+# different column subsets of one record structure, re-formatted (set_fmt / .fmt = / remove_columns) between renderings and
+# built from the format of a table that was rendered before; console help for classes whose hook returns shared notes objects.
+TITLES_BY_HEIGHT = {
+    1: [None, "Id", "a title", 7, ["one"]],
+    2: ["Id\nnum", ["Name", 7], "amount\n(usd)", [True, "kw"], "x\n"],
+    3: ["a\nb\nc", ["N", "", "longer title"], "x\n\ny", [1, "two", None]],
+    4: ["l1\nl2\nl3\nl4", [1, 2, 3, 4]],
+}
+
+
+def _titles_case(rng):
+    nfts = rng.randrange(0, 2)
+    fts = [_rand_ft(rng) for _ in range(nfts)]
+    fields = ["id", "nm", "amt", "kw"][:rng.randrange(3, 5)] + (["st"] if nfts else [])
+    # heights: at least one one-line title and one taller one, preferably three different heights
+    heights = {f: rng.choice([1, 1, 2, 3]) for f in fields}
+    hs = rng.sample(fields, 3)
+    heights[hs[0]] = 1
+    heights[hs[1]] = rng.choice([2, 3, 4])
+    heights[hs[2]] = rng.choice([1, 2, 3])
+    titles = {f: rng.choice(TITLES_BY_HEIGHT[heights[f]]) for f in fields}
+    tall = [f for f in fields if heights[f] == max(heights.values())]
+    ftmap = {"st": 0} if nfts else {}
+
+    def rec():
+        r = [rng.choice([rng.randrange(10), rng.randrange(3000), None]), rng.choice(LONGWORDS[:8]), rng.choice([1250, 2.5, 42]), rng.choice([True, False, None, "no"])][:len(fields) - (1 if nfts else 0)]
+        return r + ([rng.choice([1, 2, 3, 10, 20, 300, "A", None, 77])] if nfts else [])
+
+    def recs():
+        return [rec() for _ in range(rng.randrange(1, 4))]
+
+    def subset(keep_some_short=True):
+        """names to hide: all the tallest columns (the rendering that shows the defect), or a random proper subset"""
+        if rng.random() < 0.6:
+            sk = list(tall)
+        else:
+            sk = rng.sample(fields, rng.randrange(0, len(fields)))
+        if len(sk) >= len(fields):
+            sk = sk[:-1]
+        return sk
+    base = {"k": "table", "fields": fields, "ft": ftmap, "fmt": None, "titles": {f: t for f, t in titles.items() if t is not None},
+            "header": None, "footer": ""}
+    mode = rng.choice(["tmpl", "tmpl", "fmt_of", "fmt_of", "rfields", "single"])
+    case = {"fts": fts, "ttl": 1}
+    objs = []
+    cols = {}       # object index -> visible columns (bookkeeping of the generator: a table always keeps one column)
+    n = 1 if mode == "single" else rng.randrange(2, 5)
+    if mode == "tmpl":
+        case["tmpls"] = [{"fields": fields, "ft": ftmap, "fmt": None, "titles": base["titles"]}]
+    if mode == "rfields":
+        case["rfields"] = [[[f, titles[f], (0 if f == "st" else None)] for f in fields]]
+    for i in range(n):
+        t = dict(base, recs=recs(), header=rng.choice([None, None, "Hdr"]), footer=rng.choice(["", "", None, "done"]))
+        if rng.random() < 0.3:
+            t["reclist"] = 1
+        sk = [] if i == 0 else subset()
+        if i == 1:
+            sk = list(tall) if len(tall) < len(fields) else sk
+        if mode == "tmpl":
+            t["tmpl"] = 0
+            t["skip"] = sk + (["nosuch"] if rng.random() < 0.2 else [])
+        elif mode == "fmt_of" and i > 0:
+            t["fmt_of"] = 0
+            t["skip"] = sk
+            if rng.random() < 0.5:
+                t["late"] = 1
+        elif mode == "rfields":
+            t["rf"] = 0
+            vis = [f for f in fields if f not in sk]
+            if rng.random() < 0.4:
+                rng.shuffle(vis)
+            t["fmt"] = ",".join(vis)
+        if i > 0 and rng.random() < 0.25:
+            t["recs_of"] = rng.randrange(i)
+            t["recs"] = objs[t["recs_of"]]["recs"]
+            t.pop("reclist", None)
+        cols[i] = [f for f in fields if f not in sk]
+        objs.append(t)
+    case["objs"] = objs
+    ops = [["newconf", 0, False, rng.choice([{}, _all_colours(rng)])], ["newconf", 1, rng.random() < 0.4, _rand_conf_items(rng, 3)]]
+    built = {i for i, t in enumerate(objs) if not t.get("late")}
+    nh = 0
+
+    def render(o):
+        nonlocal nh
+        if rng.random() < 0.85:
+            ops.append(["render", o, rng.choice([0, 0, 1]), rng.random() < 0.3, "none", rng.choice([0, 0, 1, 2, 3])])
+        else:
+            ops.extend([["make", nh, o, rng.choice([0, 1]), rng.random() < 0.3, "none"], ["whole", nh, rng.choice([0, 1])]])
+            nh += 1
+
+    def restructure(o):
+        r = rng.random()
+        if r < 0.45 and len(cols[o]) > 1:
+            rm = [f for f in cols[o] if f in tall] if rng.random() < 0.6 else [rng.choice(cols[o])]
+            rm = rm or [rng.choice(cols[o])]
+            if len(rm) >= len(cols[o]):
+                rm = rm[:-1]
+            cols[o] = [f for f in cols[o] if f not in rm]
+            ops.append(["trm", o, rm + (["nosuch"] if rng.random() < 0.2 else [])])
+        elif "rf" in objs[o] or r < 0.9:
+            # (a table over caller-made RecordFields knows only those fields too: any subset of them is a valid format)
+            vis = rng.sample(fields, rng.randrange(1, len(fields) + 1))
+            if rng.random() < 0.5:
+                vis = [f for f in vis if f not in tall] or vis
+            cols[o] = vis
+            f = ",".join(c + ("!" if j == 0 and rng.random() < 0.15 else "") + (":" + rng.choice(["1-20", "3", "2-6"]) if c != "st" and rng.random() < 0.2 else "")
+                         for j, c in enumerate(vis))
+            if rng.random() < 0.2:
+                f += ";" + rng.choice(["1:1", "*", "2:0"])
+            ops.append(["tset", o, f, rng.random() < 0.3])
+        else:
+            cols[o] = list(fields)
+            ops.append(["tset", o, "*", False])
+    render(0)
+    for _ in range(rng.randrange(4, 10)):
+        r = rng.random()
+        pending = [i for i in range(n) if i not in built]
+        if pending and r < 0.35:
+            o = pending[0]
+            ops.append(["build", o])
+            cols[o] = [f for f in cols[objs[o]["fmt_of"]] if f not in objs[o]["skip"]] if objs[o].get("fmt_of") is not None else cols[o]
+            if not cols[o]:
+                # nothing would be left: the late table shows what its source shows
+                objs[o]["skip"] = []
+                cols[o] = list(cols[objs[o]["fmt_of"]])
+            built.add(o)
+            render(o)
+        elif r < 0.55:
+            restructure(rng.choice(sorted(built)))
+        else:
+            render(rng.choice(sorted(built)))
+    for o in range(n):
+        if o not in built:
+            ops.append(["build", o])
+            cols[o] = [f for f in cols[objs[o]["fmt_of"]] if f not in objs[o]["skip"]]
+            if not cols[o]:
+                objs[o]["skip"] = []
+            built.add(o)
+    order = list(range(n))
+    rng.shuffle(order)
+    for o in order:
+        ops.append(["render", o, rng.choice([0, 1]), rng.random() < 0.5, "none", 0])
+    case["ops"] = ops
+    return case
+
+
+def _notes_case(rng):
+    """console help for a class whose _get_hdoc_method_notes() hook returns ready BoundMethodNotes objects (class attributes,
+    shared by all methods / objects / calls), or fresh ones, or both; help for objects with and without a token, for their
+    bound methods, for the class and for the plain functions, through h and hh, in changing order, under a coloured, a
+    no_color and the default global configuration, with another object rendered in between"""
+    methods = [["ping", [], "Check connection.\n\n        #misc\n        "], ["get_user", ["user_id"], "Fetch user by id.\n\n        details\n\n        #users\n        "],
+               ["delete_user", ["user_id", "force=False"], "Delete user.\n\n        #users #admin\n        "], ["list_all", [], "List everything."],
+               ["sync", ["*what"], "Synchronise.\n\n        #admin\n        "]]
+    rng.shuffle(methods)
+    methods = methods[:rng.randrange(2, 6)]
+    names = [m[0] for m in methods]
+    style = rng.choice(["shared", "shared", "shared", "mixed", "fresh"])
+    rules = {}
+    for nm in names:
+        if rng.random() < 0.8:
+            rules[nm] = [rng.randrange(len(NOTE_DEFS)), rng.choice([0, 0, 2, 4])]
+    attrs = [["x", "the x"], ["missing", ["ch", "not there"]], ["x_longer_name", ["ch", "another"]], ["none5", "five"]]
+    rng.shuffle(attrs)
+    spec = {"k": "hdoc", "kind": "cls", "name": "Svc", "attrs": attrs[:rng.randrange(0, 4)], "methods": methods, "doc": "Client of some service.\n\n    details\n    ",
+            "notes": {"style": style, "rules": rules, "col": [nm for nm in names if rng.random() < 0.5]}, "insts": [None, "t0ken"] + ([None] if rng.random() < 0.3 else [])}
+    objs = [spec]
+    if rng.random() < 0.5:
+        objs.append(rng.choice([_rand_hdoc(rng), {"k": "json", "v": _fix_keys({"id": 7, "ok": True}), "fj": False}]))
+    a, b = rng.sample(COLORS[1:], 2)
+    ops = [["newconf", 0, False, rng.choice([{"HDOC.FUNC_NAME": a, "HDOC.WARN": b + ":bold", "HDOC.TAG": a}, _all_colours(rng), {}])],
+           ["newconf", 1, rng.random() < 0.6, {"HDOC.FUNC_NAME": b}]]
+    if rng.random() < 0.7:
+        ops.append(["setglobal", 0])
+    ops += [["newh", 0, 1], ["newh", 1, 2]]
+    ninst = len(spec["insts"])
+
+    def target():
+        r = rng.random()
+        if r < 0.45:
+            return ["obj", rng.randrange(ninst)]
+        if r < 0.8:
+            return ["meth", rng.randrange(ninst), rng.choice(names)]
+        if r < 0.9:
+            return ["cls"]
+        return ["func", rng.choice(names)]
+    asked = []
+    for _ in range(rng.randrange(5, 11)):
+        r = rng.random()
+        if r < 0.15:
+            ops.append(["setglobal", rng.choice([0, 1, None])])
+        elif r < 0.25 and len(objs) > 1:
+            if objs[1]["k"] == "hdoc":
+                ops.append(["help", rng.randrange(2), 1])
+            else:
+                ops.append(["render", 1, None, False, "none", 0])
+        else:
+            t = rng.choice(asked) if asked and rng.random() < 0.35 else target()
+            asked.append(t)
+            ops.append(["help", rng.choice([0, 1, 1]), 0, t])
+    # the first request once more, at the end
+    if asked:
+        ops.append(["help", 1, 0, asked[0]])
+    return {"fts": [], "objs": objs, "ops": ops, "nts": 1}
+
+
 def gen_cases(rng, tier):
     big = tier == "thorough"
     cases = [_rand_history(rng, big) for _ in range(4000 if big else 420)]
@@ -1340,18 +1553,20 @@ def gen_cases(rng, tier):
     cases += [_synced_case(rng) for _ in range(200 if big else 12)]
     cases += [_alias_case(rng) for _ in range(300 if big else 40)]
     cases += [_help_case(rng) for _ in range(160 if big else 12)]
+    cases += [_titles_case(rng) for _ in range(300 if big else 36)]
+    cases += [_notes_case(rng) for _ in range(200 if big else 24)]
     cases += [_hunt_case(rng) for _ in range(12 if big else 3)]
     return cases
 
 
 def search_cases(rng, tier):
-    return [_sibling_case(rng) for _ in range(80)] + [_interleave_case(rng) for _ in range(120)] + [_threshold_case(rng) for _ in range(240)] + [_hunt_case(rng) for _ in range(30)] + [_reg_case(rng) for _ in range(60)] + [_synced_case(rng) for _ in range(60)] + [_alias_case(rng) for _ in range(120)] + [_help_case(rng) for _ in range(60)] + [_rand_history(rng, True) for _ in range(600)]
+    return [_titles_case(rng) for _ in range(100)] + [_notes_case(rng) for _ in range(60)] + [_sibling_case(rng) for _ in range(80)] + [_interleave_case(rng) for _ in range(120)] + [_threshold_case(rng) for _ in range(240)] + [_hunt_case(rng) for _ in range(30)] + [_reg_case(rng) for _ in range(60)] + [_synced_case(rng) for _ in range(60)] + [_alias_case(rng) for _ in range(120)] + [_help_case(rng) for _ in range(60)] + [_rand_history(rng, True) for _ in range(600)]
 
 
 def kind(case):
     if case.get("hunt"):
         return "hunt"
-    return ("threshold:" if case.get("thr") else "") + ("shared/lazy:" if case.get("shr") else "") + ("equal-values:" if case.get("alias") else "") + ("outliving-help:" if case.get("hlp") else "") + "+".join(sorted({o["k"] for o in case["objs"]}))
+    return ("threshold:" if case.get("thr") else "") + ("shared/lazy:" if case.get("shr") else "") + ("equal-values:" if case.get("alias") else "") + ("outliving-help:" if case.get("hlp") else "") + ("titles/re-format:" if case.get("ttl") else "") + ("shared-notes:" if case.get("nts") else "") + "+".join(sorted({o["k"] for o in case["objs"]}))
 
 
 # ====================================================================== implementation side
@@ -1496,34 +1711,152 @@ class _Lits:
         return len(self.lits) - 1
 
 
-def _mk_enum(ftspec):
+def _mk_enum(ftspec, with_dict=False):
     from ak.ppobj import PPEnumFieldType
     d = {}
     for v, nm, syn in ftspec["values"]:
         d[v] = nm if syn is None else (nm, syn)
     if ftspec.get("missing"):
         d[PPEnumFieldType.MISSING] = tuple(ftspec["missing"])
-    return PPEnumFieldType(d)
+    ft = PPEnumFieldType(d)
+    return (ft, d) if with_dict else ft
+
+
+STRUCT_OPS = ("build", "tset", "trm")      # operations that build / re-format an object without rendering anything
+
+
+def _epochs(case):
+    """epoch of operation i = number of structural operations (build a late object, set_fmt, remove_columns) before it:
+    what an object prints may only depend on the structural operations before the rendering, never on the renderings"""
+    out, e = [], 0
+    for op in case["ops"]:
+        out.append(e)
+        if op[0] in STRUCT_OPS:
+            e += 1
+    return out
+
+
+def _snap(x, depth=0, seen=()):
+    """canonical, address-free picture of an object the CALLER handed to the library (plain data deep; objects through
+    their public attributes: RecordField, PPTableFormat, BoundMethodNotes, CHText, namespaces)"""
+    if x is None or isinstance(x, (bool, int, float, str, bytes)):
+        return [type(x).__name__, repr(x)]
+    if depth > 9 or id(x) in seen:
+        return ["..."]
+    seen = seen + (id(x),)
+    if isinstance(x, (list, tuple)):
+        return [type(x).__name__, [_snap(e, depth + 1, seen) for e in x]]
+    if isinstance(x, dict):
+        return ["dict", [[_snap(k, depth + 1, seen), _snap(v, depth + 1, seen)] for k, v in x.items()]]
+    if isinstance(x, (set, frozenset)):
+        return ["set", sorted(repr(_snap(e, depth + 1, seen)) for e in x)]
+    if isinstance(x, type) or callable(x):
+        return ["callable"]
+    tn = type(x).__name__
+    if tn == "CHText" and hasattr(x, "chunks"):
+        return ["CHText", str(x), len(x), [[getattr(c, "c_prefix", None), getattr(c, "text", None), getattr(c, "c_suffix", None)] for c in x.chunks]]
+    names = []
+    for k in type(x).__mro__:
+        sl = k.__dict__.get("__slots__", ())
+        names += [sl] if isinstance(sl, str) else list(sl)
+    names += list(getattr(x, "__dict__", {}))
+    out = []
+    for n in sorted(set(names)):
+        if n.startswith("_"):
+            continue
+        try:
+            v = getattr(x, n)
+        except AttributeError:
+            continue
+        out.append([n, _snap(v, depth + 1, seen)])
+    return ["obj", tn, out]
+
+
+class _HObj:
+    """an h-doc capable class (or function) with the objects help can be requested for:
+    None / ["obj", k] = instance k, ["meth", k, name] = bound method of instance k, ["cls"] = the class, ["func", name] = the plain function in the class"""
+    def __init__(self, main, cls=None, insts=None):
+        self.main = main
+        self.cls = cls
+        self.insts = insts or []
+
+    def get(self, target=None):
+        if not target:
+            return self.main
+        if target[0] == "obj":
+            return self.insts[target[1]]
+        if target[0] == "meth":
+            return getattr(self.insts[target[1]], target[2])
+        if target[0] == "cls":
+            return self.cls
+        if target[0] == "func":
+            return getattr(self.cls, target[1])
+        raise ValueError(target)
 
 
 class _World:
-    """objects of one case built from their specs (twice: for the probe and for the history)"""
-    def __init__(self, case, probe=None):
+    """objects of one case built from their specs (for every probe, for the history, for every reference).
+    upto = i: the structural operations among ops[:i] are replayed (no rendering): the state a FRESH process is in
+    when it renders at operation i.  track: keep every argument object handed to the library (for the clause
+    'the caller's objects are never modified')."""
+    def __init__(self, case, probe=None, upto=0, track=False):
         self.case = case
         self.probe = probe          # _Probe or None
+        self.tracked = [] if track else None        # [(name, owner object index or None, object, view function or None)]
+        self.ftdicts = []
         self.fts = [self._ft(i, s) for i, s in enumerate(case["fts"])]
-        # state that sibling objects legitimately share: format templates (PPTable(fmt_obj=...)), records lists,
-        # one PrettyPrinter per format, one ReportFormatter
-        self.tmpls = [self._tmpl(s) for s in case.get("tmpls", [])]
+        # state that sibling objects legitimately share: RecordField lists made by the caller, format templates
+        # (PPTable(fmt_obj=...)), records lists, one PrettyPrinter per format, one ReportFormatter
+        self.rfields = [self._rfields(i, s) for i, s in enumerate(case.get("rfields", []))]
+        self.tmpls = [self._tmpl(i, s) for i, s in enumerate(case.get("tmpls", []))]
         self.tables = {}
         self.recs = {}
         self.pps = {}
         self.rfmt = None
-        self.objs = [self._obj(s, i) for i, s in enumerate(case["objs"])]
+        self.objs = [None] * len(case["objs"])
+        for i, s in enumerate(case["objs"]):
+            if not s.get("late"):
+                self.objs[i] = self._obj(s, i)
+        for op in case["ops"][:upto]:
+            if op[0] in STRUCT_OPS:
+                self.apply(op)
+
+    def track(self, name, obj, owner=None, view=None):
+        if self.tracked is not None:
+            self.tracked.append((name, owner, obj, view))
+
+    def snapshot(self):
+        import json
+        out = {}
+        for name, owner, obj, view in self.tracked or []:
+            try:
+                out[name] = json.dumps(_snap(view(obj) if view else obj))
+            except Exception as e:  # noqa
+                out[name] = "raises " + SX.exc_name(e)
+        return out
+
+    def apply(self, op):
+        """structural operations"""
+        k = op[0]
+        if k == "build":
+            self.objs[op[1]] = self._obj(self.case["objs"][op[1]], op[1])
+        elif k == "tset":
+            t = self.tables[op[1]]
+            if len(op) > 3 and op[3]:
+                t.fmt = op[2]           # the property setter
+            else:
+                t.set_fmt(op[2])
+        elif k == "trm":
+            names = list(op[2])
+            self.track(f"argument of remove_columns call {len(self.tracked or [])} {op[:2]}", names)
+            self.tables[op[1]].remove_columns(names)
 
     def _ft(self, i, spec):
         if self.probe is None:
-            return _mk_enum(spec)
+            ft, d = _mk_enum(spec, True)
+            self.track(f"enum field type {i}: the values dict", d)
+            self.track(f"enum field type {i}", ft)
+            return ft
         return self.probe.enum(i, spec)
 
     def _field_types(self, s):
@@ -1535,9 +1868,40 @@ class _World:
             d[f] = FieldType()
         return d
 
-    def _tmpl(self, s):
+    def _rfields(self, i, s):
+        """RecordField objects made by the caller: [name, title, enum field type index or None]; the position in the
+        list is the position of the value in the record"""
+        from ak.ppobj import RecordField, ReprStructure, FieldType
+        dflt = getattr(ReprStructure, "_DFLT_FIELD_TYPE", None) or FieldType()
+        out = []
+        for pos, (name, title, fti) in enumerate(s):
+            title = list(title) if isinstance(title, list) else title
+            out.append(RecordField(name, self.fts[fti] if fti is not None else dflt, pos, title))
+            self.track(f"rfields[{i}][{pos}] (RecordField {name!r})", out[-1])
+        self.track(f"rfields[{i}] (the list)", out)
+        return out
+
+    def _table_args(self, s, who):
+        """(fields, fields_types, fields_titles) for PPTable / PPTableFormat.make / PPRecordFmt: argument objects are kept"""
+        if s.get("rf") is not None:
+            return self.rfields[s["rf"]], None, None
+        fields = list(s["fields"])
+        ftypes = self._field_types(s)
+        titles = s.get("titles")
+        if isinstance(titles, dict):
+            titles = {k: (list(v) if isinstance(v, list) else v) for k, v in titles.items()}
+        self.track(f"{who}: fields", fields)
+        self.track(f"{who}: fields_types", ftypes)
+        self.track(f"{who}: fields_titles", titles)
+        return fields, ftypes, titles
+
+    def _tmpl(self, i, s):
         from ak.ppobj import PPTableFormat
-        return PPTableFormat.make(s["fmt"], list(s["fields"]), self._field_types(s), s.get("titles"))
+        fields, ftypes, titles = self._table_args(s, f"tmpls[{i}]")
+        t = PPTableFormat.make(s["fmt"], fields, ftypes, titles)
+        self.track(f"tmpls[{i}] (PPTableFormat passed as fmt_obj)", t)
+        self.track(f"tmpls[{i}]: str()", t, view=str)
+        return t
 
     def _obj(self, s, idx=None):
         k = s["k"]
@@ -1547,36 +1911,48 @@ class _World:
                 self.pps[s["fj"]] = PrettyPrinter(fmt_json=s["fj"])
             pp = self.pps[s["fj"]]
             v = _unfix(s["v"])
+            self.track(f"objs[{idx}]: the value", v)
             return ("json", PrettyPrinter.PPPalette, lambda **kw: pp(v, **kw))
         if k == "table":
             from ak.ppobj import PPTable
             if s.get("recs_of") is not None and s["recs_of"] in self.recs:
                 recs = self.recs[s["recs_of"]]          # the very same list object as the sibling table
             else:
-                recs = [tuple(r) for r in s["recs"]]
+                recs = [(list(r) if s.get("reclist") else tuple(r)) for r in s["recs"]]
+                self.track(f"objs[{idx}]: records", recs)
             self.recs[idx] = recs
+            kw = {"header": s["header"], "footer": s["footer"]}
+            if s.get("skip") is not None:
+                kw["skip_columns"] = list(s["skip"])
+                self.track(f"objs[{idx}]: skip_columns", kw["skip_columns"])
             if s.get("tmpl") is not None:
-                t = PPTable(recs, fmt_obj=self.tmpls[s["tmpl"]], header=s["header"], footer=s["footer"])
+                t = PPTable(recs, fmt_obj=self.tmpls[s["tmpl"]], **kw)
             elif s.get("fmt_of") is not None:
-                t = PPTable(recs, fmt_obj=self.tables[s["fmt_of"]].fmt, header=s["header"], footer=s["footer"])
+                t = PPTable(recs, fmt_obj=self.tables[s["fmt_of"]].fmt, **kw)
             else:
-                t = PPTable(recs, fields=list(s["fields"]), fmt=s["fmt"], header=s["header"], footer=s["footer"],
-                            fields_types=self._field_types(s), fields_titles=s["titles"])
+                fields, ftypes, titles = self._table_args(s, f"objs[{idx}]")
+                t = PPTable(recs, fields=fields, fmt=s["fmt"], fields_types=ftypes, fields_titles=titles, **kw)
             self.tables[idx] = t
+            # the format of a table belongs to the table: only operations on this very table may change what it says
+            self.track(f"objs[{idx}]: str(table.fmt)", t, owner=idx, view=lambda t: str(t.fmt))
             return ("table", PPTable.TablePalette, lambda **kw: t.ch_text(**kw))
         if k == "rec":
             from ak.ppobj import PPRecordFmt
-            f = PPRecordFmt(s["fmt"], fields=list(s["fields"]), fields_types=self._field_types(s))
-            rec = tuple(s["rec"])
+            fields, ftypes, titles = self._table_args(s, f"objs[{idx}]")
+            f = PPRecordFmt(s["fmt"], fields=fields, fields_types=ftypes)
+            rec = list(s["rec"]) if s.get("reclist") else tuple(s["rec"])
+            self.track(f"objs[{idx}]: the record", rec)
             return ("rec", PPRecordFmt.PPRecordPalette, lambda **kw: f(rec, **kw))
         if k == "ghist":
             from ak.ghist import GHistReport, ReportFormatter
             if self.rfmt is None:
                 self.rfmt = ReportFormatter()
-            rep = GHistReport(_ghist_data(s), self.rfmt)
+            data = _ghist_data(s)
+            self.track(f"objs[{idx}]: the report data", data)
+            rep = GHistReport(data, self.rfmt)
             return ("ghist", GHistReport.GHistPalette, lambda **kw: rep.ch_text(**kw))
         if k == "hdoc":
-            return ("hdoc", None, _hdoc_obj(s))
+            return ("hdoc", None, _hdoc_obj(s, self, idx))
         raise ValueError(k)
 
 
@@ -1611,7 +1987,15 @@ def _ghist_data(s):
     return data
 
 
-def _hdoc_obj(s):
+NOTE_DEFS = [[True, "", "", 0], [False, "<n/a>", "! requires access token !", 0], [True, "[beta]", "experimental", 1],
+             [False, "<off>", "", 1], [True, "(v2)", "", 0]]
+
+
+def _hdoc_obj(s, world=None, idx=None):
+    """-> _HObj.  Classes may implement the documented hook _get_hdoc_method_notes(bound_method, _c); spec "notes":
+    {"style": "shared" (ready BoundMethodNotes objects kept as class attributes and returned again and again) | "fresh" (a new
+    object per call) | "mixed" (fresh ones, coloured with the palette handed to the hook, for the methods in "col"),
+    "rules": {method name: [note index without token, note index with token]}}, "insts": [token or None, ...]"""
     from ak.hdoc import h_doc
     ns = {}
     if s["kind"] == "func":
@@ -1619,15 +2003,59 @@ def _hdoc_obj(s):
         exec(src, ns)
         f = ns[s["name"]]
         f.__doc__ = s["doc"]
-        return h_doc(f)
-    body = f"class {s['name']}:\n    {s['doc']!r}\n    _HDOC_ATTRS = {[tuple(a) for a in s['attrs']]!r}\n    x = 5\n    missing = None\n"
+        return _HObj(h_doc(f))
+    body = f"class {s['name']}:\n    {s['doc']!r}\n    x = 5\n    missing = None\n"
     for nm, _descr in s["attrs"]:
         if nm not in ("x", "missing"):
             body += f"    {nm} = {None if nm.startswith(('missing', 'none')) else 5!r}\n"
+    body += "    def __init__(self, token=None):\n        self.token = token\n"
     for nm, args, doc in s["methods"]:
         body += f"    def {nm}({', '.join(['self'] + args)}):\n        {doc!r}\n"
     exec(body, ns)
-    return h_doc(ns[s["name"]])()
+    cls = ns[s["name"]]
+    from ak.color import CHText
+    # attribute descriptions: plain strings, or CHText objects made by the caller (['ch', text])
+    cls._HDOC_ATTRS = [(a[0], CHText(a[1][1]) if isinstance(a[1], list) else a[1]) for a in s["attrs"]]
+    notes = s.get("notes")
+    if notes:
+        from ak.hdoc import BoundMethodNotes
+
+        def mk(i, _c=None):
+            avail, short, line, ch = NOTE_DEFS[i]
+            if _c is not None and short:
+                return BoundMethodNotes(avail, CHText(_c.warn(short)), CHText(_c.text(line)) if line else line)
+            return BoundMethodNotes(avail, CHText(short) if ch else short, CHText(line) if ch and line else line)
+        cls._NOTES = [mk(i) for i in range(len(NOTE_DEFS))]
+        rules = notes["rules"]
+        style = notes["style"]
+        col = set(notes.get("col", []))
+
+        def _get_hdoc_method_notes(self, bound_method, _c):
+            r = rules.get(bound_method.__name__, [0, 0])
+            i = r[1] if self.token is not None else r[0]
+            if style == "fresh":
+                return mk(i)
+            if style == "mixed" and bound_method.__name__ in col:
+                return mk(i, _c)
+            return type(self)._NOTES[i]
+        cls._get_hdoc_method_notes = _get_hdoc_method_notes
+        if world is not None:
+            world.track(f"objs[{idx}]: the BoundMethodNotes objects the hook returns", cls._NOTES)
+    if world is not None:
+        world.track(f"objs[{idx}]: _HDOC_ATTRS", cls._HDOC_ATTRS)
+    cls = h_doc(cls)
+    insts = [cls(token=t) for t in s.get("insts", [None])]
+    return _HObj(insts[0], cls, insts)
+
+
+def _tkey(target):
+    import json
+    return json.dumps(target)
+
+
+def _htarget(op):
+    """["help", h, obj] or ["help", h, obj, target]"""
+    return op[3] if len(op) > 3 and op[3] else None
 
 
 class _Probe:
@@ -1686,8 +2114,9 @@ class _Probe:
             d[PPEnumFieldType.MISSING] = tuple(spec["missing"])
         return ProbeEnum(d)
 
-    def program(self, obj):
-        """-> {"cls": class index, "subs": [class index], "lines": [[item]]}"""
+    def program(self, obj, targets=()):
+        """-> {"cls": class index, "subs": [class index], "lines": [[item]]}; console help: "levels" = the lines of h / hh
+        for the main object, "tl" = {target key: the same for every other object help is requested for in the history}"""
         from ak.color import CHText
         kind, K, call = obj
         sublog = []
@@ -1700,11 +2129,14 @@ class _Probe:
             # `_c` is a read-only property (the palette is looked up per call) since the repair of hdoc-captured-palette,
             # an instance attribute before: a class attribute of a subclass shadows both
             ProbeH = type("ProbeH", (HCommand,), {"_c": pal})
-            for level in (1, 2):
-                h = ProbeH.__new__(ProbeH)
-                h.dets_level = level
-                progs.append([self._line(l.chunks) for l in h._gen_ch_lines(call, HCommand._DFLT_FILT_ARG, level, False)])
-            return {"cls": self.klasses.index(K), "subs": [], "levels": progs}
+            def levels(target):
+                out = []
+                for level in (1, 2):
+                    h = ProbeH.__new__(ProbeH)
+                    h.dets_level = level
+                    out.append([self._line(l.chunks) for l in h._gen_ch_lines(call.get(target), HCommand._DFLT_FILT_ARG, level, False)])
+                return out
+            return {"cls": self.klasses.index(K), "subs": [], "levels": levels(None), "tl": {_tkey(t): levels(t) for t in targets}}
         r = call(palette=pal)
         if kind == "rec":
             line = []
@@ -1744,6 +2176,58 @@ class _Probe:
                 continue
             raise ExtractError(f"chunk with an unknown prefix in a probe rendering: {c!r}")
         return out
+
+
+def _title_info(table):
+    """[(column name, title_lines of its field)] of the columns a FRESH table shows, taken before anything is rendered
+    (public attributes: table.fmt.repr_structure.columns[i].name / .field.title_lines) -- 'the fields as they were made'
+    of the title model (Titles.v); None when the format object does not have this shape"""
+    from numbers import Number
+    try:
+        out = []
+        for c in table.fmt.repr_structure.columns:
+            lines = []
+            for it in c.field.title_lines:
+                if isinstance(it, str):
+                    lines.append(["s", it])
+                elif it is True or it is False or it is None:
+                    lines.append(["o", "keyword", 1, str(it)])
+                elif isinstance(it, Number):
+                    lines.append(["o", "number", 1, str(it)])
+                else:
+                    lines.append(["o", "text", 0, str(it)])
+            out.append([c.name, lines])
+        return out
+    except Exception:  # noqa
+        return None
+
+
+def _title_block(prog, tinfo, has_header):
+    """locate the title block in the probe's program of a table (between the first border line, the header line if there is
+    one, and the second border line) and attach what the title MODEL needs: prog["tb"] = {"t0", "t1", "cols": [[width, lines]]};
+    nothing is attached when a title does not fit its column (truncation is not modelled) or the program has another shape"""
+    lines = prog.get("lines") or []
+    if not lines or len(lines[0]) != 1 or lines[0][0][0] != "c":
+        return
+    border = lines[0][0][3]
+    if not re.fullmatch(r"\+(-*\+)+", border):
+        return
+    widths = [len(x) for x in border.split("+")[1:-1]]
+    if len(widths) != len(tinfo):
+        return
+    t0 = 1 + (1 if has_header else 0)
+    t1 = next((i for i in range(t0, len(lines)) if lines[i] == lines[0]), None)
+    if t1 is None:
+        return
+    if any(len(it[-1]) > w or "\n" in it[-1] for w, (_n, ls) in zip(widths, tinfo) for it in ls):
+        return
+    prog["tb"] = {"t0": t0, "t1": t1, "cols": [[w, ls] for w, (_n, ls) in zip(widths, tinfo)]}
+
+
+def _c_titem(it):
+    if it[0] == "s":
+        return f"TStr {SX.cstr(it[1])}"
+    return f"TObj acc_{it[1]} {SX.cbool(bool(it[2]))} {SX.cstr(it[3])}"
 
 
 def _jv(v, sortkey):
@@ -1895,14 +2379,14 @@ def _reference(case, i, op, snap, ex, klasses):
     from ak import color
     from ak.hdoc import HCommand
     _reset_globals()
-    w = _World(case)
+    w = _World(case, upto=i)
     out = {}
     if op[0] == "render":
         kind, K, call = w.objs[op[1]]
         conf = _mk_conf(snap["conf"])
         out["ref"] = _consume(call(colors_conf=conf, no_color=op[3]), 0, kind)[0]
         _reset_globals()
-        w = _World(case)
+        w = _World(case, upto=i)
         kind, K, call = w.objs[op[1]]
         out["ref_nc"] = _consume(call(colors_conf=_mk_conf(snap["conf"]), no_color=True), 0, kind)[0]
         try:
@@ -1912,17 +2396,18 @@ def _reference(case, i, op, snap, ex, klasses):
             out["ref_m"], out["ref_nc_m"] = ["raises " + SX.exc_name(e)], []
     else:
         level = _hlevel(case, op[1])
+        tg = _htarget(op)
         color.set_global_colors_config(_mk_conf(snap["conf"]))
-        obj = w.objs[op[2]][2]
+        obj = w.objs[op[2]][2].get(tg)
         out["ref"] = HCommand(level)._make_help_text(obj)
         _reset_globals()
-        w = _World(case)
+        w = _World(case, upto=i)
         color.set_global_colors_config(_mk_conf(snap["ctor"]))
-        out["ref_ctor"] = HCommand(level)._make_help_text(w.objs[op[2]][2])
+        out["ref_ctor"] = HCommand(level)._make_help_text(w.objs[op[2]][2].get(tg))
         _reset_globals()
-        w = _World(case)
+        w = _World(case, upto=i)
         color.set_global_colors_config(color.ColorsConfig(no_color=True))
-        out["ref_nc"] = HCommand(level)._make_help_text(w.objs[op[2]][2])
+        out["ref_nc"] = HCommand(level)._make_help_text(w.objs[op[2]][2].get(tg))
     return out
 
 
@@ -1945,12 +2430,15 @@ def _run_history(case, w, klasses, log):
     made = {}
     canon = {}
     recs = []
+    before = w.snapshot()
     for op in case["ops"]:
         k = op[0]
         del log[:]
         rec = {}
         try:
-            if k == "newconf":
+            if k in STRUCT_OPS:
+                w.apply(op)
+            elif k == "newconf":
                 confs[op[1]] = color.ColorsConfig(dict(op[3]), no_color=op[2])
             elif k == "drop":
                 del confs[op[1]]
@@ -1974,7 +2462,7 @@ def _run_history(case, w, klasses, log):
             elif k == "newh":
                 hcmds[op[1]] = HCommand(op[2])
             elif k == "help":
-                rec["out"] = [hcmds[op[1]]._make_help_text(w.objs[op[2]][2])]
+                rec["out"] = [hcmds[op[1]]._make_help_text(w.objs[op[2]][2].get(_htarget(op)))]
             elif k == "make":
                 kind, K, call = w.objs[op[2]]
                 pa = op[5]
@@ -2014,6 +2502,20 @@ def _run_history(case, w, klasses, log):
         for raw in log:
             ids.append(canon.setdefault(raw, len(canon) + 1))
         rec["ids"] = ids
+        # the caller's objects: whatever was handed to the library (records, field lists, title dicts, RecordField and format
+        # objects, enum dicts, values, notes objects ...) must be what it was -- a table's own format string may change only
+        # through an operation on that very table
+        if w.tracked:
+            acted = {"render": 1, "make": 2, "help": 2, "build": 1, "tset": 1, "trm": 1}.get(k)
+            acted = op[acted] if acted is not None else (made.get(op[1]) if k in ("next", "whole") else None)
+            after = w.snapshot()
+            mod = []
+            for name, owner, _o, _v in w.tracked:
+                if name in before and before[name] != after[name] and not (owner is not None and owner == acted):
+                    mod.append([name, before[name][:400], after[name][:400]])
+            if mod:
+                rec["mod"] = mod
+            before = after
         recs.append(rec)
         gc.collect()
     return recs
@@ -2037,27 +2539,50 @@ def impl_run(case):
     if ex is not None:
         probe = _Probe(case, ex, klasses)
         progs = []
-        for oi in range(len(case["objs"])):
-            pw = _World(case, probe)        # fresh field types for every probe
+        progs_e = {}
+        targets = {}
+        for op in case["ops"]:
+            if op[0] == "help" and _htarget(op):
+                ts = targets.setdefault(op[2], [])
+                if _htarget(op) not in ts:
+                    ts.append(_htarget(op))
+        # programs of the objects as a FRESH process would print them: at epoch 0 (no structural operation yet) and at
+        # every later epoch in which the object is rendered
+        eps = _epochs(case)
+        need = [(oi, 0) for oi in range(len(case["objs"]))]
+        for op, ep in zip(case["ops"], eps):
+            oi = {"render": 1, "make": 2, "help": 2}.get(op[0])
+            if oi is not None and ep and (op[oi], ep) not in need:
+                need.append((op[oi], ep))
+        for oi, ep in need:
+            upto = 0 if ep == 0 else eps.index(ep)
+            prog = None
             try:
-                progs.append(probe.program(pw.objs[oi]))
+                pw = _World(case, probe, upto=upto)        # fresh field types for every probe
+                if pw.objs[oi] is not None:                 # (a late object does not exist at epoch 0)
+                    tinfo = _title_info(pw.tables.get(oi)) if case["objs"][oi]["k"] == "table" else None
+                    prog = probe.program(pw.objs[oi], targets.get(oi, ()))
+                    if tinfo is not None:
+                        _title_block(prog, tinfo, bool(case["objs"][oi].get("header")))
             except ExtractError as e:
                 # the object prints something that does not come from its palette (e.g. a hard-coded colour):
                 # no chunk program, the case is outside the model; the oracle still sees the history
-                progs.append(None)
                 probe.oom = "probe: " + str(e)[:200]
             except Exception as e:  # noqa  the implementation raised under the instrumented palette
-                progs.append(None)
                 probe.oom = "probe raised " + SX.exc_name(e)
+            if ep == 0:
+                progs.append(prog)
+            else:
+                progs_e[f"{oi}:{ep}"] = prog
         ftdefs = [[[li, probe.lits[i].keys[li], {str(mi): d[mi][0] for mi in d}] for li, d in sorted(fd.items())] for i, fd in enumerate(probe.ftdefs)]
-        del pw
+        pw = None
         if probe.oom is None and any(o.get("gft") for o in case["objs"]):
             # FieldType.get_cell_text_len (base class) builds the cell with PALETTE_CLASS(no_color=True): a palette requested
             # through the GLOBAL configuration in the middle of the width detection -- the model has no such step
             probe.oom = "plain FieldType() column: width detection requests a no_color palette through the global configuration"
         oom, aliased = probe.oom, probe.aliased
     else:
-        progs, ftdefs, oom, aliased = None, None, "extractor: " + extract_error, False
+        progs, progs_e, ftdefs, oom, aliased = None, None, None, "extractor: " + extract_error, False
     # 1b. pretty-printer values for the layout model (str() of numbers and the key order are oracle values)
     jvs = []
     for spec in case["objs"]:
@@ -2084,7 +2609,7 @@ def impl_run(case):
             # reference first, then repeat the pattern until some text differs from it
             refs = [(_safe_reference(case, i, op, snaps[i], ex, klasses) if op[0] in ("render", "help") else None) for i, op in enumerate(case["ops"])]
             _reset_globals()
-            w = _World(case)
+            w = _World(case, track=True)
             recs = None
             for attempts in range(1, int(case["hunt"]) + 1):
                 recs = _run_history(case, w, klasses, log)
@@ -2092,7 +2617,7 @@ def impl_run(case):
                     break
         else:
             _reset_globals()
-            w = _World(case)
+            w = _World(case, track=True)
             recs = _run_history(case, w, klasses, log)
             refs = None
     finally:
@@ -2110,7 +2635,7 @@ def impl_run(case):
     for rec, r in zip(recs, refs):
         if r:
             rec.update(r)
-    return {"progs": progs, "ftdefs": ftdefs, "ops": recs, "oom": oom, "aliased": aliased, "attempts": attempts, "jvs": jvs}
+    return {"progs": progs, "progs_e": progs_e, "ftdefs": ftdefs, "ops": recs, "oom": oom, "aliased": aliased, "attempts": attempts, "jvs": jvs}
 
 
 # ====================================================================== model side
@@ -2132,9 +2657,19 @@ def _c_lines(lines):
     return SX.clist(SX.clist(_c_item(it) for it in l) if l else "(@nil item)" for l in lines) if lines else "(@nil (list item))"
 
 
-def _c_obj(prog, level=None):
-    lines = prog["levels"][level - 1] if "levels" in prog else prog["lines"]
+def _c_obj(prog, level=None, target=None):
+    if "levels" in prog:
+        lines = (prog["tl"][_tkey(target)] if target else prog["levels"])[level - 1]
+    else:
+        lines = prog["lines"]
     return f"(mkObj {prog['cls']} {SX.cZlist(prog['subs'])} {_c_lines(lines)})"
+
+
+def _prog(obs, oi, ep=0):
+    """chunk program of object oi as a fresh process prints it after the structural operations of epoch ep"""
+    if ep:
+        return (obs.get("progs_e") or {}).get(f"{oi}:{ep}")
+    return obs["progs"][oi] if obs.get("progs") is not None else None
 
 
 class _Synt:
@@ -2147,7 +2682,7 @@ class _Synt:
         return self.m[name]
 
 
-def _handle_obj(case, obs, oi, first, n=None):
+def _handle_obj(case, obs, oi, first, n=None, ep=0):
     """Coq objspec of lines [first, first+n) (n None: all) of object oi, with the sub-palettes first requested
     while those lines are produced"""
     j = (obs.get("jvs") or [None] * len(case["objs"]))[oi]
@@ -2156,7 +2691,14 @@ def _handle_obj(case, obs, oi, first, n=None):
         if n is None:
             return full
         return f"(mkObj pp_cls (@nil Z) (firstn {n} (skipn {first} (o_lines {full}))))"
-    prog = obs["progs"][oi]
+    prog = _prog(obs, oi, ep)
+    if n is None and prog.get("tb"):
+        # a table: the title block is COMPUTED by the title model (Titles.v) from the fields as they were made and the columns
+        # the table shows in this epoch; border / header before it and records / footer after it come from the probe
+        tb = prog["tb"]
+        cols = SX.clist(f"({w}%nat, {SX.clist(_c_titem(it) for it in ls) if ls else '(@nil titem)'})" for w, ls in tb["cols"])
+        return (f"(mkObj {prog['cls']} {SX.cZlist(prog['subs'])} ({_c_lines(prog['lines'][:tb['t0']])} ++ title_lines {cols} ++ "
+                f"{_c_lines(prog['lines'][tb['t1']:])}))")
     if n is None:
         return _c_obj(prog)
     marks = prog["marks"]
@@ -2175,7 +2717,7 @@ def _model_ops(case, obs):
     made = {}
     pos = {}
     out = []
-    for op, rec in zip(case["ops"], obs["ops"]):
+    for op, rec, ep in zip(case["ops"], obs["ops"], _epochs(case)):
         k = op[0]
         ids = SX.cZlist(rec.get("ids", []))
         texts = rec.get("out", [])
@@ -2191,7 +2733,7 @@ def _model_ops(case, obs):
             pa = op[4]
             cpa = f"(PObj {pa[1]})" if isinstance(pa, list) else {"none": "PNone", "synced": "PSynced"}[pa]
             copt = None if (isinstance(pa, list) or pa == "synced") else op[2]
-            out.append((f"ORender {_handle_obj(case, obs, op[1], 0)} {SX.copt(copt, SX.cZ)} {SX.cbool(op[3])} {cpa} {op[5]} {ids}", texts))
+            out.append((f"ORender {_handle_obj(case, obs, op[1], 0, None, ep)} {SX.copt(copt, SX.cZ)} {SX.cbool(op[3])} {cpa} {op[5]} {ids}", texts))
         elif k == "newh":
             # HCommand(level) does nothing to the world (the palette is looked up when help is printed): no model operation.
             # Should the constructor create a palette after all, the model is made to disagree (one text against none)
@@ -2200,21 +2742,23 @@ def _model_ops(case, obs):
                 out.append((f"ORender (mkObj hcmd_cls (@nil Z) (@nil (list item))) None false PNone 1 {ids}", texts))
         elif k == "help":
             # h(obj): PALETTE_CLASS(None, None) = the palette of the global configuration NOW, lines joined with "\n"
-            out.append((f"ORender {_c_obj(obs['progs'][op[2]], hlevel[op[1]])} None false PNone 1 {ids}", texts))
+            out.append((f"ORender {_c_obj(_prog(obs, op[2], ep), hlevel[op[1]], _htarget(op))} None false PNone 1 {ids}", texts))
         elif k == "make":
-            made[op[1]] = op[2]
+            made[op[1]] = (op[2], ep)
             pos[op[1]] = 0
             pa = op[5]
             cpa = f"(PObj {pa[1]})" if isinstance(pa, list) else "PNone"
             copt = None if isinstance(pa, list) else op[3]
-            prog = obs["progs"][op[2]]
+            prog = _prog(obs, op[2], ep)
             out.append((f"OMake {100 + op[1]} {prog['cls']} {SX.copt(copt, SX.cZ)} {SX.cbool(op[4])} {cpa} {ids}", texts))
         elif k == "next":
             for t, lids in zip(texts, rec.get("lids", [])):
-                out.append((f"ONext {100 + op[1]} {_handle_obj(case, obs, made[op[1]], pos[op[1]], 1)} {SX.cZlist(lids)}", [t]))
+                out.append((f"ONext {100 + op[1]} {_handle_obj(case, obs, made[op[1]][0], pos[op[1]], 1, made[op[1]][1])} {SX.cZlist(lids)}", [t]))
                 pos[op[1]] += 1
         elif k == "whole":
-            out.append((f"OWholeH {100 + op[1]} {_handle_obj(case, obs, made[op[1]], 0)} {op[2]} {ids}", texts))
+            out.append((f"OWholeH {100 + op[1]} {_handle_obj(case, obs, made[op[1]][0], 0, None, made[op[1]][1])} {op[2]} {ids}", texts))
+        # structural operations (build / set_fmt / remove_columns) render nothing and do nothing to the colours world: no model
+        # operation; what they change is WHICH program a fresh process prints (the programs of the later epochs)
     return out
 
 
@@ -2301,8 +2845,8 @@ def _dangling_package_parent(content):
 def _classify(case, obs, snaps, i, oi, t, ref):
     """signature of 'text t of object oi (operation i) differs from the fresh reference'"""
     sig = "history-dependent"
-    if oi is not None and obs.get("progs") is not None and obs["progs"][oi] is not None:
-        prog = obs["progs"][oi]
+    prog = _prog(obs, oi, _epochs(case)[i]) if oi is not None else None
+    if prog is not None:
         has_enum = any(it[0] == "e" for l in prog.get("lines", []) for it in l)
         if _dangling_package_parent(snaps[i]["conf"]):
             sig = "late-registered-parent"
@@ -2328,6 +2872,10 @@ def oracle(case, obs):
     hlines = {}     # handle -> texts of the lines its iterator yielded so far
     for i, (op, rec) in enumerate(zip(case["ops"], obs["ops"])):
         where = f"op {i} {op[:3]}"
+        for name, b, a in rec.get("mod", []):
+            # output has no memory -- and the memory must not sit in the caller's objects either: whatever was handed to the
+            # library is read, never written (an in-place += / extend / sort on it shows in every later rendering that uses it)
+            out.append(("caller-object-modified", f"{where}: {name} was changed by the operation: {b} -> {a}"))
         if "err" in rec:
             out.append(("render-raises", f"{where} raised {rec['err']}"))
             continue
@@ -2427,16 +2975,23 @@ def shrink_candidates(case):
     ops = case["ops"]
     for i in range(len(ops) - 1, -1, -1):
         cand = ops[:i] + ops[i + 1:]
-        if _well_formed(cand):
+        if _well_formed(cand, case["objs"]):
             yield dict(case, ops=cand)
 
 
-def _well_formed(ops):
+def _well_formed(ops, objs=None):
     live = set()
     hs = set()
     rs = set()
+    late = {i for i, o in enumerate(objs or []) if o.get("late")}
+    built = set()
     for op in ops:
         k = op[0]
+        oi = {"render": 1, "make": 2, "help": 2, "tset": 1, "trm": 1}.get(k)
+        if oi is not None and op[oi] in late and op[oi] not in built:
+            return False
+        if k == "build" and objs and objs[op[1]].get("fmt_of") in late - built:
+            return False
         if k == "newconf":
             live.add(op[1])
         elif k == "drop":
@@ -2460,6 +3015,8 @@ def _well_formed(ops):
         elif k == "help":
             if op[1] not in hs:
                 return False
+        elif k == "build":
+            built.add(op[1])
         elif k == "make":
             pa = op[5]
             if isinstance(pa, list) and pa[1] not in live:
